@@ -406,10 +406,11 @@ type wsPeer struct {
 	stallCh chan struct{} // closed at shutdown
 }
 type wsPeerConn struct {
-	wmu   sync.Mutex // gorilla: one writer at a time
-	c     *websocket.Conn
-	query string
-	msgs  chan wsMsg
+	stopRead int32      // != 0: the peer stops reading (the connection stays open)
+	wmu      sync.Mutex // gorilla: one writer at a time
+	c        *websocket.Conn
+	query    string
+	msgs     chan wsMsg
 }
 type wsMsg struct {
 	kind int // websocket.BinaryMessage, PingMessage(9), PongMessage(10), CloseMessage(8); -1 = read error
@@ -444,6 +445,10 @@ func newWSPeer() *wsPeer {
 		p.mu.Unlock()
 		p.conns <- pc
 		for {
+			if atomic.LoadInt32(&pc.stopRead) != 0 {
+				<-p.stallCh
+				return
+			}
 			t, data, err := c.ReadMessage()
 			if err != nil {
 				pc.msgs <- wsMsg{-1, []byte(err.Error())}
@@ -495,6 +500,7 @@ type testClient struct {
 	mu      sync.Mutex
 	// reconHold, when set, parks the after-reconnect callback (after it was counted) until the channel is closed
 	reconHold chan struct{}
+	jsonCodec bool // handshake with the JSON codec instead of protobuf
 }
 
 func newTestClient() *testClient {
@@ -533,7 +539,11 @@ func (tc *testClient) closeCallbacks() []string {
 	return append([]string(nil), tc.closeCB...)
 }
 func (tc *testClient) dial(url string, v uint8, opts ...client.DialOption) error {
-	return tc.cli.Dial(context.Background(), url, &protocol.Handshake{Version: v, Codec: protocol.CodecProtobuf, Platform: protocol.PlatformOpenapi}, opts...)
+	codec := protocol.CodecProtobuf
+	if tc.jsonCodec {
+		codec = protocol.CodecJSON
+	}
+	return tc.cli.Dial(context.Background(), url, &protocol.Handshake{Version: v, Codec: codec, Platform: protocol.PlatformOpenapi}, opts...)
 }
 
 type doResult struct {
